@@ -499,6 +499,26 @@ def rules(ctx: Ctx) -> None:
             if returns_value and not env_on_true:
                 ok_order = True
                 a = t.ast
+                # the tested value is the per-key look-up, and it is what the true branch returns
+                tested = a.left if isinstance(a, ast.Compare) else a
+                if isinstance(tested, ast.NamedExpr):
+                    tested_name, tested_def = u(tested.target), tested.value
+                elif isinstance(tested, ast.Name):
+                    dd = [node.value for kind, node in prog.local_defs(ga, tested.id) if kind in ("assign", "walrus")]
+                    tested_name, tested_def = tested.id, (dd[0] if len(dd) == 1 else None)
+                else:
+                    tested_name, tested_def = u(tested), tested
+                by_item = tested_def is not None and any(
+                    isinstance(k, ast.Call) and isinstance(k.func, ast.Attribute) and k.func.attr == "get" and k.args and isinstance(k.args[0], ast.Name) and k.args[0].id == item
+                    or isinstance(k, ast.Subscript) and isinstance(k.slice, ast.Name) and k.slice.id == item
+                    for k in ast.walk(tested_def)
+                ) or (isinstance(a, ast.Compare) and isinstance(a.ops[0], ast.In) and isinstance(a.left, ast.Name) and a.left.id == item)
+                ret_nodes = [gcfg.nodes[b].ast for b in true_succ if isinstance(gcfg.nodes[b].ast, ast.Return)]
+                returns_tested = all(u(r.value) == tested_name or (isinstance(a, ast.Compare) and isinstance(a.ops[0], ast.In) and item in u(r.value)) for r in ret_nodes) and bool(ret_nodes)
+                ctx.ob("R15.6", "getattr:test-is-on-the-key's-value", bool(by_item), f"{ga.mod.path}:{t.lineno}",
+                       f"`{u(a)[:70]}`: the presence test must be on the value looked up for this key (a test on the thread's whole map hides the environment for every other key)")
+                ctx.ob("R15.6", "getattr:returns-the-tested-value", returns_tested, f"{ga.mod.path}:{t.lineno}",
+                       "the override returned is the very value whose presence was tested, as stored")
                 presence_ok = (
                     isinstance(a, ast.Compare) and len(a.ops) == 1 and (
                         isinstance(a.ops[0], ast.IsNot) and isinstance(a.comparators[0], ast.Constant) and a.comparators[0].value is None
